@@ -100,13 +100,35 @@ def stepObsOk (names : List Name) (o : StepObs) : Option String :=
   | some w => some w
   | none => firstSome (instObsOk names) o.insts
 
+/-- `add_parameter(n, P)` / `C.n = P` that returned normally installed `P`: the class reads `P`'s
+default under `n` (checked when the class is observed after the step) -/
+def installedOk (names : List Name) (op : Op) (o : StepObs) : Option String :=
+  let chk (c : CId) (n : Name) (d : Int) : Option String :=
+    if o.res != "ok" then none else
+    match o.cls.find? (·.c == c), names.findIdx? (· == n) with
+    | some co, some k =>
+      (match co.rows[k]? with
+       | some r =>
+         if r.static.isNone then some s!"class {c} '{n}': the Parameter just added is not reachable as an attribute"
+         else if r.attr != some d then some s!"class {c} '{n}': the Parameter just added has default {d} but the class attribute is {r.attr}"
+         else none
+       | none => none)
+    | _, _ => none
+  match op with
+  | .addParam c n d _ => chk c n d
+  | .clsSetParam c n d _ => chk c n d
+  | _ => none
+
 /-- walk a history of observations; returns (steps checked, first disagreement) -/
-def specHistory (names : List Name) : List StepObs → Nat → Nat × Option String
+def specHistory (names : List Name) : List (Op × StepObs) → Nat → Nat × Option String
   | [], k => (k, none)
-  | o :: rest, k =>
+  | (op, o) :: rest, k =>
     match stepObsOk names o with
     | some w => (k + 1, some s!"after step {k}: {w}")
-    | none => specHistory names rest (k + 1)
+    | none =>
+      match installedOk names op o with
+      | some w => (k + 1, some s!"after step {k}: {w}")
+      | none => specHistory names rest (k + 1)
 
 /-! ### The same observations computed from a model state -/
 
